@@ -147,7 +147,7 @@ def gen_case(rng):
         elif r < 0.35:
             now += F(rng.randint(1, 4), 2)
             ops.append(["sim", _q(now), 2])
-    return {"pars": pars, "ops": ops}
+    return {"pars": pars, "ops": ops, "fluxes": True}
 
 
 P1 = [["1", [["k", "1"]]], ["2", [["k", "2"]]]]
@@ -162,10 +162,10 @@ PREFIXES = [[], [["sim", "2", 2]], [["sim", "2", 2], ["var", [["x", "1"]]]], [["
 def exhaustive_cases():
     for pre, prot in itertools.product(PREFIXES, [P1, P2]):
         for tpps in (1, 4):
-            yield {"pars": c04.PARS0, "ops": [*pre, ["proto", prot, tpps]]}
+            yield {"pars": c04.PARS0, "ops": [*pre, ["proto", prot, tpps]], "fluxes": True}
         for grid, rel in itertools.product(GRIDS, [False, True]):
-            yield {"pars": c04.PARS0, "ops": [*pre, ["ptc", prot, grid, rel]]}
-            yield {"pars": c04.PARS0, "ops": [*pre, ["ptc", prot, grid, rel], ["sim", "8", 2]]}
+            yield {"pars": c04.PARS0, "ops": [*pre, ["ptc", prot, grid, rel]], "fluxes": True}
+            yield {"pars": c04.PARS0, "ops": [*pre, ["ptc", prot, grid, rel], ["sim", "8", 2]], "fluxes": True}
 
 
 def shape_of(case):
